@@ -134,27 +134,29 @@ Proof.
 Qed.
 
 (* ---------- loop 2 ---------- *)
-Lemma empty_inner_spec now h : forall fuel li w,
-  exists extra, wstep w (fst (empty_inner now h w li fuel)) extra.
+Lemma empty_inner_spec now h one : forall fuel li w,
+  exists extra, wstep w (fst (empty_inner now h one w li fuel)) extra.
 Proof.
   induction fuel as [|f IH]; intros li w; cbn [empty_inner]; [exists []; apply wstep_refl|].
   destruct (nth_error (w_leases w) li) as [l0|] eqn:E0; [|exists []; apply wstep_refl].
   match goal with |- context [if ?c then _ else _] => destruct c end.
-  - destruct (IH (S li) w) as (ex & W). destruct (empty_inner now h w (S li) f). exists ex. exact W.
-  - destruct (IH (S li) (give now w li)) as (ex & W). destruct (empty_inner now h (give now w li) (S li) f). cbn [fst] in *.
-    eexists. eapply wstep_trans; [apply wstep_give; exact E0|exact W].
+  - apply IH.
+  - destruct one.
+    + eexists. cbn [fst]. apply wstep_give. exact E0.
+    + destruct (IH (S li) (give now w li)) as (ex & W). destruct (empty_inner now h false (give now w li) (S li) f). cbn [fst] in *.
+      eexists. eapply wstep_trans; [apply wstep_give; exact E0|exact W].
 Qed.
 
-Lemma empty_loop_spec now : forall hs sat w,
-  exists extra, wstep w (fst (empty_loop now hs sat w)) extra.
+Lemma empty_loop_spec now : forall hs sat rem w,
+  exists extra, wstep w (fst (empty_loop now hs sat rem w)) extra.
 Proof.
-  induction hs as [|h hs IH]; intros sat w; cbn [empty_loop]; [exists []; apply wstep_refl|].
+  induction hs as [|h hs IH]; intros sat rem w; cbn [empty_loop]; [exists []; apply wstep_refl|].
   destruct sat as [|s sat]; [exists []; apply wstep_refl|].
   destruct (s || negb (empty_hint h)).
-  - destruct (IH sat w) as (ex & W). destruct (empty_loop now hs sat w). exists ex. exact W.
-  - destruct (empty_inner_spec now h (length (w_leases w)) 0%nat w) as (e1 & W1).
-    destruct (empty_inner now h w 0 (length (w_leases w))) as [w1 hit]. cbn [fst] in *.
-    destruct (IH sat w1) as (e2 & W2). destruct (empty_loop now hs sat w1). cbn [fst] in *.
+  - destruct (IH sat rem w) as (ex & W). destruct (empty_loop now hs sat rem w). exists ex. exact W.
+  - destruct (empty_inner_spec now h (Nat.ltb 0 (pred rem)) (length (w_leases w)) 0%nat w) as (e1 & W1).
+    destruct (empty_inner now h (Nat.ltb 0 (pred rem)) w 0 (length (w_leases w))) as [w1 hit]. cbn [fst] in *.
+    destruct (IH sat (pred rem) w1) as (e2 & W2). destruct (empty_loop now hs sat (pred rem) w1). cbn [fst] in *.
     eexists. eapply wstep_trans; eassumption.
 Qed.
 
